@@ -368,3 +368,8 @@ func hashString(s string) uint64 {
 	}
 	return h
 }
+
+// RequiredProbes: a batch in which one of these never fired explored nothing of that kind (exit 2, not a pass).
+func (c10) RequiredProbes() []string {
+	return []string{"kind:subst", "kind:datalen", "kind:header", "kind:fmt-cross", "kind:window", "kind:random-stream"}
+}
